@@ -429,7 +429,8 @@ LeaveFx(S, s, how, reason) ==
       Sb == FoldRegs(Sa, {k \in DOMAIN Sa.regs : s \in Rng(Sa.regs[k].callees)}, s)
       \* ... calls it was serving are answered to their callers (DevKillThenCalleeGone:
       \* the code skips calls with a kill-mode cancel outstanding) ...
-      served  == {c \in DOMAIN Sb.calls : Sb.calls[c].callee = s /\ c[1] # s}
+      \* (a call of the session to itself is answered too: its transport is still open)
+      served  == {c \in DOMAIN Sb.calls : Sb.calls[c].callee = s}
       skipped == IF "DevKillThenCalleeGone" \in Deviations
                  THEN {c \in served : Sb.calls[c].canceled} ELSE {}
       Sc == FoldCalls(Sb, served \ skipped)
